@@ -44,6 +44,33 @@ type obsT struct {
 	pattern  string
 	params   [][2]string
 	scope    fox.HandlerScope
+	views    []viewT // Clone() and CloneWith() copies taken inside the handler
+}
+
+// viewT is what a copy of the context shows
+type viewT struct {
+	name     string
+	routeNil bool
+	rid      routeID
+	ridKnown bool
+	pattern  string
+	params   [][2]string
+	scope    fox.HandlerScope
+}
+
+func viewOf(r *rtr, name string, c fox.Context) viewT {
+	v := viewT{name: name}
+	rt := c.Route()
+	v.routeNil = rt == nil
+	if rt != nil {
+		v.rid, v.ridKnown = r.byPtr[rt]
+	}
+	v.pattern = c.Pattern()
+	for prm := range c.Params() {
+		v.params = append(v.params, [2]string{prm.Key, prm.Value})
+	}
+	v.scope = c.Scope()
+	return v
 }
 
 var cur *obsT
@@ -82,6 +109,67 @@ func record(r *rtr, c fox.Context, kind, m, p string) {
 		cur.params = append(cur.params, [2]string{prm.Key, prm.Value})
 	}
 	cur.scope = c.Scope()
+	// the views obtained from the context: what a writer-wrapping middleware would pass down
+	cur.views = append(cur.views, viewOf(r, "Clone", c.Clone()))
+	cw := c.CloneWith(c.Writer(), c.Request())
+	cur.views = append(cur.views, viewOf(r, "CloneWith", cw))
+	cw.Close()
+}
+
+// prime leaves wildcard parameters of an earlier, unrelated request in the pooled contexts of the
+// router's current tree: it serves a request matching a wildcard route (unobserved), then takes several
+// contexts out of the pool at once through Lookup and gives them back with their parameters recorded
+// (Close does not truncate). The observed request that follows, and the copies its handler takes, are
+// then built on contexts that carry foreign parameters. sync.Pool gives no guarantee, hence several.
+func (r *rtr) prime(st *hx.Stats) {
+	var prq *http.Request
+	for _, id := range r.routes {
+		if !strings.ContainsAny(id.pattern, "{*") {
+			continue
+		}
+		host := "a.org"
+		pat := id.pattern
+		if i := strings.IndexByte(pat, '/'); i > 0 {
+			host = strings.NewReplacer("{sub}", "foo").Replace(pat[:i])
+			pat = pat[i:]
+		}
+		path := strings.NewReplacer("{x}", "users", "{y}", "42", "{z}", "zz", "*{w}", "w/42").Replace(pat)
+		rq, err := parseWire(id.method, path, host)
+		if err != nil {
+			continue
+		}
+		if rte, cc, _ := r.f.Lookup(nil, rq); rte != nil {
+			n := 0
+			for range cc.Params() {
+				n++
+			}
+			cc.Close()
+			if n > 0 {
+				prq = rq
+				break
+			}
+		}
+	}
+	if prq == nil {
+		st.Count("sequence:no-wildcard-route-to-prime-with")
+		return
+	}
+	st.Count("sequence:primed-with-a-served-wildcard-request")
+	for i := 0; i < 2; i++ {
+		func() {
+			defer func() { _ = recover() }()
+			r.f.ServeHTTP(httptest.NewRecorder(), prq) // cur == nil: not observed
+		}()
+	}
+	var held []fox.ContextCloser
+	for i := 0; i < 4; i++ {
+		if _, cc, _ := r.f.Lookup(nil, prq); cc != nil {
+			held = append(held, cc)
+		}
+	}
+	for _, cc := range held {
+		cc.Close()
+	}
 }
 
 var stdMethods = []string{"GET", "POST", "PUT", "DELETE", "OPTIONS", "HEAD", "PATCH", "CONNECT"}
@@ -598,7 +686,8 @@ func runCase(r *rtr, rc *reqCase, st *hx.Stats) (term, human string, nontrivial 
 		return hx.Pair(hx.Bytes(e.method), hx.Opt(e.found, "("+rtTerm(e.id)+", "+hx.Bool(e.tsr)+", "+paramsTerm(e.params)+")"))
 	})
 
-	// serve
+	// serve, back to back after a served request with wildcard parameters on the same router
+	r.prime(st)
 	o := &obsT{}
 	cur = o
 	w := httptest.NewRecorder()
@@ -655,9 +744,20 @@ func runCase(r *rtr, rc *reqCase, st *hx.Stats) (term, human string, nontrivial 
 		}
 		loc, hasLoc := w.Header()["Location"]
 		locS := strings.Join(loc, ",")
-		obsTerm = fmt.Sprintf("(Some (Build_observed %s %s %s %s %s %s %s %s %s))", kt, routeT, hx.Bytes(o.pattern),
+		viewsTerm := hx.ListOf(o.views, func(v viewT) string {
+			rt := "None"
+			if !v.routeNil {
+				id := v.rid
+				if !v.ridKnown {
+					id = routeID{method: "<unregistered>", pattern: v.pattern}
+				}
+				rt = "(Some " + hx.Pair(hx.Bytes(id.method), hx.Bytes(id.pattern)) + ")"
+			}
+			return "(" + rt + ", " + hx.Bytes(v.pattern) + ", " + paramsTerm(v.params) + ", " + scopeName(v.scope) + ")"
+		})
+		obsTerm = fmt.Sprintf("(Some (Build_observed %s %s %s %s %s %s %s %s %s %s))", kt, routeT, hx.Bytes(o.pattern),
 			paramsTerm(o.params), scopeName(o.scope), hx.Z(int64(w.Code)), hx.Opt(hasAllow, hx.Bytes(allowHdr)),
-			hx.ListOf(allowList, hx.Bytes), hx.Opt(hasLoc, hx.Bytes(locS)))
+			hx.ListOf(allowList, hx.Bytes), hx.Opt(hasLoc, hx.Bytes(locS)), viewsTerm)
 		setList := append([]string(nil), allowList...)
 		sort.Strings(setList)
 		obsHuman = fmt.Sprintf("handler=%s %s %s status=%d ctx{route=%s pattern=%q params=%v scope=%s}", o.kind, o.kmethod, o.kpattern,
@@ -667,6 +767,13 @@ func runCase(r *rtr, rc *reqCase, st *hx.Stats) (term, human string, nontrivial 
 		}
 		if hasLoc {
 			obsHuman += fmt.Sprintf(" Location=%q", locS)
+		}
+		for _, v := range o.views {
+			vr := "nil"
+			if !v.routeNil {
+				vr = v.rid.method + " " + v.rid.pattern
+			}
+			obsHuman += fmt.Sprintf(" %s(){route=%s pattern=%q params=%v scope=%s}", v.name, vr, v.pattern, v.params, scopeName(v.scope))
 		}
 	}
 	regs := hx.SortedKeys(r.registered)
